@@ -427,6 +427,9 @@ func recoverEngine(logger log.Logger, expr parser.Expr, errp *error) {
 
 		level.Error(logger).Log("msg", "runtime panic in engine", "expr", expr.String(), "err", e, "stacktrace", string(buf))
 		*errp = errors.Wrap(err, "unexpected error")
+	default:
+		// Never swallow a panic: the query must not look successful.
+		*errp = errors.Newf("unexpected error: %v", e)
 	}
 }
 
